@@ -166,4 +166,5 @@ def main():
 
 
 if __name__ == "__main__":
-    main()
+    from framework import guarded
+    guarded("C06", main)
